@@ -39,7 +39,7 @@ class C06(PropBase):
 
     def execute(self, ctx):
         if ctx.doc is None:
-            ctx.cfg = swarm(ctx.rng("cfg"))
+            ctx.cfg = (getattr(self, "swarm_fn", None) or swarm)(ctx.rng("cfg"))
         cfg = ctx.cfg
         mx.set_recalc(bool(cfg["recalc"]))
         self.recalc = bool(cfg["recalc"])
@@ -53,7 +53,7 @@ class C06(PropBase):
             ev = grammar.Evaluator(mach.ref)
             self.ev = ev
             for i in range(cfg["n_steps"]):
-                op = mach.next_op(WEIGHTS) if mach.sched.random() > 0.05 else {"op": "set_recalc", "v": mach.sched.random() < 0.5}
+                op = mach.next_op(getattr(self, "weights", None) or WEIGHTS) if mach.sched.random() > 0.05 else {"op": "set_recalc", "v": mach.sched.random() < 0.5}
                 if op["op"] in ("clear_items",):
                     continue
                 steps.append(op)
